@@ -431,12 +431,26 @@ func resolveRoles(w *World) *Roles {
 	// operations that call it and its store is judged there; ro.MarkCanceled stays nil)
 	// shutdown: stores isShuttingDown = true
 	for _, fn := range funcs {
-		if len(ro.storesTo(fn, "PipelineRunner.isShuttingDown", func(s *ssa.Store) bool { return isBoolConst(s.Val, true) })) > 0 {
+		if len(ro.storesTo(fn, "PipelineRunner.isShuttingDown", func(s *ssa.Store) bool { return isTruthyConst(s.Val) })) > 0 {
 			ro.Shutdown = fn
 		}
 		if len(ro.storesTo(fn, "PipelineRunner.defs", nil)) > 0 {
 			ro.Replace = fn
 		}
+	}
+	// the flag may be set in an unexported helper (with its own lock region): the role is the exported
+	// operation it belongs to
+	for i := 0; i < 3 && ro.Shutdown != nil && (ro.Shutdown.Object() == nil || !ro.Shutdown.Object().Exported()); i++ {
+		var callers []*ssa.Function
+		for _, g := range funcs {
+			if len(findCalls(g, func(_ string, c *ssa.CallCommon) bool { return c.StaticCallee() == ro.Shutdown })) > 0 {
+				callers = append(callers, g)
+			}
+		}
+		if len(callers) != 1 {
+			break
+		}
+		ro.Shutdown = callers[0]
 	}
 	// save: the function that builds store.PersistedData and calls the store's Save
 	for _, fn := range funcs {
